@@ -11,25 +11,33 @@ LEAN = os.path.join(os.path.dirname(HERE), "lean")
 GEN = ["translator_no_fallback", "gen_next_atom_state_eq", "gen_next_branch_state_eq", "gen_next_ring_state_eq"]
 
 STATIC = {
-    "C01": {"extra_modules": ["SelfiesVerif.Proofs.GenEq"], "extra_theorems": GEN,
-            "not_proved": ["writer level (balanced parentheses, ring labels paired, reader recovers the graph): correspondence + independent reader only",
-                           "C01_ring_labels_legal is FALSE on the unchanged tree (finding F1: > 99 ring bonds)",
+    "C01": {"use_props": ["C01w"], "extra_modules": ["SelfiesVerif.Proofs.GenEq"], "extra_theorems": GEN,
+            "not_proved": ["C01_ring_labels_legal (labels always in 1..99) is FALSE on the unchanged tree (finding F1: > 99 ring bonds); proved: C01w_labels_legal_partial (<= 99 ring bonds) and the structural overflow lemma C01w_label_overflow",
+                           "that the rendered token list is re-read by an independent SMILES grammar as the same graph (C01_reader_recovers) is not a theorem: the independent reader of the harness judges the real outputs",
                            "external sanitizer clause: validated with RDKit, cannot be a theorem"]},
-    "C02": {"use_props": ["C01", "C16"], "extra_modules": ["SelfiesVerif.Proofs.GenEq"], "extra_theorems": GEN,
-            "not_proved": ["C02_impl_eq_spec (Model.decoder = independent Spec.decoder): the independent rendering of derivation.rst is not written yet; the tie is exhaustive small-scope correspondence of the code with the model"]},
-    "C03": {"use_props": ["C01", "C16", "C04"], "not_proved": ["C03_decode_encode (decodeGraph (encodeGraph g) = ringsFirst g): not proved; correspondence + independent index-wise comparison only"]},
-    "C04": {"not_proved": ["decoder-side half (formRings + writer realise decoderOrder on encoder output), i.e. the end-to-end handedness theorem, depends on C03_decode_encode"]},
-    "C05": {"not_proved": ["C05_kekulize_sound, greedy/flip validity, completeness, order independence: not proved; exhaustive small-graph correspondence with every recorded tape, brute force, and per-spelling round-trip judgement"]},
-    "C06": {}, "C07": {"use_props": ["C01"]},
-    "C08": {"use_props": ["C01", "C18"], "not_proved": ["C08_total (no exception other than DecoderError): not proved; false without hypotheses (finding F2)"]},
-    "C09": {"not_proved": ["C09_total: not proved; false without hypotheses (finding F2)"]},
-    "C10": {"use_props": ["C16"], "not_proved": ["C10_reencode_stable: not proved (needs C03_decode_encode and the writer/parser round trip)"]},
-    "C11": {"use_props": ["C12"], "not_proved": ["the decoder/encoder models take the table as a parameter; that the real translators read the table only through get_bonding_capacity is tied by the history correspondence and the fresh-interpreter oracle",
-                                                  "cross-process determinism: observation only"]},
+    "C02": {"use_props": ["C16"], "extra_modules": ["SelfiesVerif.Proofs.GenEq", "SelfiesVerif.Spec.DerivationExamples"], "extra_theorems": GEN,
+            "not_proved": ["C02_decoder_eq at the SMILES-string level (no spec writer); the graph-level refinement C02_graph_eq_general is proved for every result other than RecursionError (finding F2)"]},
+    "C03": {"use_props": ["C01w"], "not_proved": ["that every graph smiles_to_mol produces satisfies isParsedWF / roundTripReady is a hypothesis evaluated by the harness on the real parser's graphs (via the model), not a theorem",
+                                                   "the last step from the decoded graph to the SMILES string is C01w (writer = pre-order of the forest, atoms in index order); it is not composed with C03_roundtrip into one string-level theorem",
+                                                   "aromatic inputs: kekulization is covered by C05 (sound given a perfect matching), not composed here"]},
+    "C04": {"use_props": ["C03"], "not_proved": ["the writer step (neighbour order of the written SMILES = adjacency order) is C01w_writer_eq_spec; C03_neighbour_order + C03_handedness give the graph-level end-to-end statement"]},
+    "C05": {"not_proved": ["completeness (succeeds whenever an assignment exists) and atom-order independence: not theorems (false in general: finding F9); decided by bounded search",
+                           "unconditional soundness of find_perfect_matching is FALSE (C05_soundness_false, finding F9); proved: sound on bipartite graphs, sound whenever every augmenting path found is simple, kekulize sound given a perfect matching",
+                           "that the SMILES parser establishes PWF is a hypothesis (decidable, evaluated by the harness), not a theorem"]},
+    "C06": {}, "C07": {"use_props": ["C01", "C08"],
+                       "not_proved": ["C07_atom_symbols_valid holds only for keys whose charge has at most 4300 digits (finding F10; proved exact: C07_atom_symbol_accepted_iff)"]},
+    "C08": {"use_props": ["C18"], "not_proved": ["full-strength C08 (DecoderError only) is FALSE: RecursionError on deep nesting (finding F2); proved: C08_total_partial (ok / DecoderError / RecursionError only, every other failure branch unreachable, fuel suffices) and C08_no_recursion_error_if_shallow",
+                                                  "the recursion threshold of the model (limit - 40) is approximate for the real interpreter"]},
+    "C09": {"use_props": ["C06"], "not_proved": ["C09_total: not proved; false without hypotheses (finding F2)"]},
+    "C10": {"use_props": ["C16", "C03"], "not_proved": ["C10_reencode_stable (encode(decode(encode s)) = encode s): not a theorem; needs parser(writer(g)) = g on top of C03_roundtrip; decided on the real code by the chain oracle",
+                                                  "C10_atom_symbol_accepted needs token length <= 10^4300 (C10_atom_symbol_length_bound_needed)"]},
+    "C11": {"use_props": ["C12", "C19"], "not_proved": ["the decoder/encoder models take the table as a parameter; that the real translators read the table only through get_bonding_capacity is tied by the history correspondence and the fresh-interpreter oracle",
+                                                         "cross-process determinism: observation only"]},
     "C12": {"not_proved": ["full privacy of the returned alphabet is FALSE on the unchanged tree (finding F7); C12_refines_value_map_partial excludes histories that mutate a returned alphabet"]},
     "C13": {}, "C14": {"not_proved": ["C14_encoder_output_wf: correspondence + oracle only"]},
     "C15": {}, "C16": {"extra_modules": ["SelfiesVerif.Proofs.GenEq"], "extra_theorems": GEN},
-    "C17": {"not_proved": ["attribution theorems not proved yet; correspondence of the full attribution lists + truthfulness oracles"]},
+    "C17": {"not_proved": ["'exactly the enclosing branch symbols' (C17_atom_attribution_partial proves: branch symbols at earlier, increasing positions, pushed by the enclosing calls) and 'exactly once' per atom",
+                           "with compatible=True the reported token is the MODERNISED symbol, not the input symbol (C17_input_index_compat; negation example in Props/C17.lean, replayed on the real code)"]},
     "C18": {},
     "C19": {"not_proved": ["that every cross-call interaction of the real code goes through the modelled memo tables is an inventory re-derived from the source on every run, not a theorem",
                            "atomicity of CPython container operations is assumed"]},
@@ -52,16 +60,20 @@ def main():
         st = STATIC[p]
         mods = []
         thms = []
+        per_module = {}
         own = "SelfiesVerif.Props.%s" % p
         for q in [p] + st.get("use_props", []):
             m = "SelfiesVerif.Props.%s" % q
             if os.path.exists(os.path.join(LEAN, m.replace(".", "/") + ".lean")):
                 mods.append(m)
-                thms += theorems(m)
+                per_module[m] = theorems(m)
+                thms += per_module[m]
         mods += st.get("extra_modules", [])
         thms += st.get("extra_theorems", [])
+        if st.get("extra_theorems"):
+            per_module["SelfiesVerif.Proofs.GenEq"] = st["extra_theorems"]
         has_own = os.path.exists(os.path.join(LEAN, own.replace(".", "/") + ".lean"))
-        e = {"modules": mods, "theorems": thms, "not_proved": st.get("not_proved", []),
+        e = {"modules": mods, "theorems": thms, "per_module": per_module, "not_proved": st.get("not_proved", []),
              "own_theorems": len(theorems(own)) if has_own else 0}
         e["level"] = "proof" if has_own else "other"
         out[p] = e
